@@ -134,6 +134,10 @@ def run_shard(ctx):
             ctx.count("stopped_on_time_budget")
             break
         one_case(ctx, ctx.shard * 100000 + k)
+    # pair decisions for the quality-based criteria under both quality encodings (definition-based, shared with C14)
+    from . import c14
+    for k in range(ctx.scale(8, 120)):
+        c14.cli_pair_case(ctx, ctx.shard * 100000 + 70000 + k)
 
 
 def verdict_hook(merged, tier):
@@ -145,4 +149,8 @@ def verdict_hook(merged, tier):
 
 def replay(ctx, case):
     ctx.shard = case["k"] // 100000
+    if case.get("kind") == "clipair":
+        from . import c14
+        c14.cli_pair_case(ctx, case["k"])
+        return
     one_case(ctx, case["k"])
